@@ -115,6 +115,16 @@ def kw_rule(chk, prog):
                     a = strip(call_args(sd)[1], casts=True)
                     if a.get("kind") == "StringLiteral":
                         lit = a.get("value", '""')[1:-1]
+                # the same test written as a prefix comparison: strncmp(p, "kw", strlen("kw")) == 0
+                if sd.get("kind") == "CallExpr" and callee_name(sd) == "strncmp" and len(call_args(sd)) == 3:
+                    a = strip(call_args(sd)[1], casts=True)
+                    n3 = strip(call_args(sd)[2], casts=True)
+                    whole = ConstEval(prog).try_eval(n3)
+                    if whole is None and n3.get("kind") == "CallExpr" and callee_name(n3) == "strlen" and \
+                            strip(call_args(n3)[0], casts=True).get("kind") == "StringLiteral":
+                        whole = len(strip(call_args(n3)[0], casts=True).get("value", '""')[1:-1])
+                    if a.get("kind") == "StringLiteral" and whole is not None and whole >= len(a.get("value", '""')[1:-1]):
+                        lit = a.get("value", '""')[1:-1]
             if lit is None:
                 continue
             for call in walk(kids(st)[1]):
@@ -219,7 +229,7 @@ def null_rule(chk, prog):
                 chk.bad("NULL", key, loc_str(node), "a tokeniser/search result is tested for NULL before it is used", text)
         for s in sites.values():
             chk.ok("NULL", "NULL/site/%s/%s@%s" % (fname, callee_name(s), loc_str(s)), loc_str(s), "call site analysed")
-    chk.floor("tokeniser/search call sites", nsites, 14)
+    chk.floor("tokeniser/search call sites", nsites, 13)
 
 
 def term_rule(chk, prog, res):
